@@ -212,8 +212,11 @@ pub fn gen_valid_def(g: &mut Gen, name: &str, mel: bool, prior: &[String]) -> De
 				v.fields.push(extra);
 			},
 			_ => {
+				// the parameter cannot be kept (nothing encodable mentions it): make the definition concrete
+				let concrete = def.inst.first().cloned().unwrap_or_else(|| "u16".to_string());
 				def.generics.clear();
 				def.inst.clear();
+				substitute_param(&mut def, "T", &concrete);
 			},
 		}
 	}
@@ -227,6 +230,55 @@ pub fn gen_valid_def(g: &mut Gen, name: &str, mel: bool, prior: &[String]) -> De
 		}
 	}
 	def
+}
+
+fn substitute_param(def: &mut Def, p: &str, concrete: &str) {
+	let fix = |fs: &mut Vec<FieldDef>| {
+		for f in fs.iter_mut() {
+			if f.ty == p {
+				f.ty = concrete.to_string();
+			} else if f.ty.contains(&format!("<{p}>")) {
+				f.ty = f.ty.replace(&format!("<{p}>"), &format!("<{concrete}>"));
+			}
+		}
+	};
+	match &mut def.body {
+		Body::Struct { fields, .. } => fix(fields),
+		Body::Enum { variants } => variants.iter_mut().for_each(|v| fix(&mut v.fields)),
+		Body::Union => {},
+	}
+}
+
+/// Rust-level well-formedness the generator is responsible for (a failure is a generator bug, exit 2).
+pub fn well_formed(def: &Def) -> Result<(), String> {
+	let mut all: Vec<&FieldDef> = vec![];
+	match &def.body {
+		Body::Struct { fields, .. } => all.extend(fields.iter()),
+		Body::Enum { variants } => variants.iter().for_each(|v| all.extend(v.fields.iter())),
+		Body::Union => {},
+	}
+	for f in &all {
+		let mentions = f.ty == "T" || f.ty.contains("<T>");
+		if mentions && def.generics.is_empty() {
+			return Err(format!("field type {} mentions an undeclared parameter", f.ty));
+		}
+		if f.mode == Mode::Skip && !SKIP_TYPES.contains(&f.ty.as_str()) && !f.ty.starts_with("PhantomData<") {
+			return Err(format!("skipped field of non-Default type {}", f.ty));
+		}
+		if f.mode == Mode::Compact && !COMPACT_TYPES.contains(&f.ty.as_str()) && f.ty != "CW" {
+			return Err(format!("compact field of type {}", f.ty));
+		}
+	}
+	if !def.generics.is_empty() && !uses_param(def, "T") {
+		return Err("declared parameter not used by any encodable field".into());
+	}
+	if let Body::Enum { variants } = &def.body {
+		let has_data = variants.iter().any(|v| !v.fields.is_empty());
+		if has_data && variants.iter().any(|v| v.discriminant.is_some()) && def.repr_int.is_none() {
+			return Err("explicit discriminant next to data-carrying variants without a primitive repr".into());
+		}
+	}
+	Ok(())
 }
 
 fn uses_param(def: &Def, p: &str) -> bool {
